@@ -277,8 +277,12 @@ RENDERERS = ["iwes::router::server::render_path", "liwe::graph::render_search_te
 
 
 def rule_r5(facts, rep, rid="C18-R5"):
+    found = 0
     for name in RENDERERS:
-        f = facts.fn(name)
+        f = facts.fn(name, required=False)
+        if f is None:
+            continue            # a duplicate renderer that was folded into one of the others
+        found += 1
         rep.saw_fn(f)
         c = ctx(f)
         ids = [x for x in fb.walk(f.body) if x.get("k") == "mcall" and (fb.callee(x) or "").endswith("NodePath::ids")]
@@ -306,6 +310,7 @@ def rule_r5(facts, rep, rid="C18-R5"):
         rep.ok(rid, f.def_ + "|text-of-last-id", "", f.loc)
     else:
         rep.violation(rid, f.def_ + "|text-of-last-id", "nested symbol name is not the text of the path's last heading", f.loc)
+    rep.floor(rid, "path renderers", found, 3)
 
 
 def run(facts, rep, tier):
